@@ -29,6 +29,9 @@ def loose_equal(want: Any, got: Any) -> bool:
     DTCs by code or short name, tuples/lists/dicts structurally."""
     if isinstance(want, dict):
         return isinstance(got, dict) and all(k in got and loose_equal(v, got[k]) for k, v in want.items())
+    if isinstance(want, tuple) and len(want) == 2 and isinstance(want[0], int) and not isinstance(want[0], bool) and \
+            isinstance(got, (list, tuple)) and len(got) == 2 and isinstance(got[0], str):
+        return loose_equal(want[1], got[1])  # MUX value given by key: the decoder reports the case name
     if isinstance(want, (list, tuple)):
         return isinstance(got, (list, tuple)) and len(want) == len(got) and all(loose_equal(a, b) for a, b in zip(want, got))
     if hasattr(got, "trouble_code"):
